@@ -157,7 +157,9 @@ pub fn select_connection(
     // ranking. Otherwise we fall back to the full pool — better to send
     // on a gated link than to drop the packet.
     let any_unconstrained = conns.iter().any(|c| {
-        !c.is_timed_out(current_time_ms)
+        // Only a connected link is an alternative (see `apply_stall_gate`).
+        c.connected
+            && !c.is_timed_out(current_time_ms)
             && c.is_schedulable()
             && !c.weak
             && !c.loss_degraded
@@ -177,6 +179,12 @@ pub fn select_connection(
         // available (see `apply_stall_gate`); hard-skip it like a timed-out link
         // rather than crushing its score, since a trickle would only add latency.
         if c.is_timed_out(current_time_ms) || !c.is_schedulable() || c.stall_gated {
+            continue;
+        }
+        // A link that is no longer connected (REG_ERR after establishment) has
+        // a base score of -1; multiplied by a quality factor below 1 it would
+        // beat the -1.0 starting score and be chosen. It cannot carry data.
+        if !c.connected {
             continue;
         }
         // Hard-skip only the in-flight cap: it bounds queueing delay and
